@@ -237,7 +237,9 @@ class QDict(QToken):
         d: Dict[str, QToken] = {}
         while len(entries_str) > 0:
             entries_str = entries_str.strip()
-            if len(d) > 0 and entries_str[0] == ",":
+            if not entries_str:
+                break  # only whitespace was left before the closing bracket
+            if len(d) > 0 and entries_str[:1] == ",":
                 entries_str = entries_str[1:]
             # parse key
             (key_t, key_str), entries_str = _parse_token(entries_str, namespace)
@@ -246,7 +248,7 @@ class QDict(QToken):
             key = QString.parse(key_str, {}).value
             entries_str = entries_str.strip()
             # Remove :
-            if entries_str[0] != ":":
+            if entries_str[:1] != ":":
                 raise QueryParseException("Key in dict is not followed by a :")
             entries_str = entries_str[1:]
             # parse val
@@ -302,7 +304,9 @@ class QList(QToken):
         ls: List[QToken] = []
         while len(entries_str) > 0:
             entries_str = entries_str.strip()
-            if len(ls) > 0 and entries_str[0] == ",":
+            if not entries_str:
+                break  # only whitespace was left before the closing bracket
+            if len(ls) > 0 and entries_str[:1] == ",":
                 entries_str = entries_str[1:]
             # parse
             (val_t, val_str), entries_str = _parse_token(entries_str, namespace)
